@@ -678,9 +678,21 @@ def extract_flags(tree):
     expect(isinstance(last, ast.Call) and isinstance(last.func, ast.Attribute) and last.func.attr == "contains",
            "PolygonalRegion.containsRegionInner: final `.contains(poly)`")
     zg = [st for st in body if isinstance(st, ast.If) and any(is_attr(x, "other", "z") or is_attr(x, "self", "z") for x in ast.walk(st.test))]
+    for g in zg:
+        expect(len(g.body) == 1 and isinstance(g.body[0], ast.Return) and not g.orelse
+               and is_const(g.body[0].value, False), "containsRegionInner: height guard must return False")
+
+    def line_guard(t):
+        """`isinstance(other, PolylineRegion) and self.z != 0` (the repaired shape of finding containsRegion:poly-line:elevated)"""
+        return (isinstance(t, ast.BoolOp) and isinstance(t.op, ast.And) and len(t.values) == 2
+                and isinstance_other(t.values[0]) == "PolylineRegion" and isinstance(t.values[1], ast.Compare)
+                and len(t.values[1].ops) == 1 and isinstance(t.values[1].ops[0], ast.NotEq)
+                and is_attr(t.values[1].left, "self", "z") and is_const(t.values[1].comparators[0], 0))
+    lg = [g for g in zg if line_guard(g.test)]
+    zg = [g for g in zg if not line_guard(g.test)]
+    expect(len(lg) <= 1, "containsRegionInner: more than one polyline guard")
     if zg:
-        expect(len(zg) == 1 and len(zg[0].body) == 1 and isinstance(zg[0].body[0], ast.Return)
-               and is_const(zg[0].body[0].value, False), "containsRegionInner: height guard must return False")
+        expect(len(zg) == 1, "containsRegionInner: more than one height guard")
         t = zg[0].test
         ok = (isinstance(t, ast.BoolOp) and isinstance(t.op, ast.And) and isinstance_other(t.values[0]) == "PolygonalRegion"
               and isinstance(t.values[1], ast.Compare) and isinstance(t.values[1].ops[0], ast.NotEq)
